@@ -18,6 +18,9 @@ import (
 type Rec struct {
 	Version string
 	Tags    string // comma separated, "" if none
+	// Other is an attribute that has no bearing on order or matching
+	// ("Blocked", "Redirect", "Features" or ""); the model ignores it.
+	Other string `json:",omitempty"`
 }
 
 func hasTag(tags, tag string) bool {
